@@ -6,7 +6,11 @@
   value contains (`mappingPairs`, `fieldPairs`, `elements`, `indexed`, `isPair`), and proves that the
   model meets it for every value of the domain — the inputs the quantifier of the property names,
   minus the shapes Serdes.lean answers `unsupported` for (sets whose (index, element) pairs would
-  depend on the hash order, first elements whose class is not modelled).
+  depend on the hash order, first elements whose class is not modelled).  An instance of any
+  structured class, annotated or not (slots-only, vars-only), is `.inst c fs` with `fs` the instance
+  fields that are set, in definition order; a member of an enumeration without `str` mix-in is a
+  structured object without public fields.  Outside the domain every value is either a scalar
+  (TypeError from both functions) or unsupported by the model (`outside_domain`).
 
   An item is an `Item = R (Val × Val)`: what `for k, v in iteritems(x)` binds for that element
   (`unpackPair`), or the error the unpacking raises; items are delivered lazily, so the items before
@@ -783,7 +787,9 @@ def envEx : Env := [
   { flavour := .plain, fields := [("a".toList, .scalar .int), ("_p".toList, .scalar .int)] },
   { flavour := .dataclass, fields := [("x".toList, .coll .vartuple (.scalar .int))] },
   { flavour := .plain, mixin := .none, members := [("m0".toList, .int 1), ("m1".toList, .str "ab".toList)] },
-  { flavour := .plain, mixin := .str, members := [("m0".toList, .str "ab".toList)] } ]
+  { flavour := .plain, mixin := .str, members := [("m0".toList, .str "ab".toList)] },
+  { flavour := .slots },
+  { flavour := .plain } ]
 
 /-- a named tuple whose first field is the 2-character string 'ab' -/
 def ntAb : Val := .inst 0 [("a".toList, .str "ab".toList), ("b".toList, .int 1)]
@@ -813,6 +819,16 @@ example : inDomainItems [] (.set [.int 1, .int 2]) = false := by rfl
 example : inDomainItems [] (.list [.uuid 1]) = false := by rfl
 example : inDomainItems [] (.set [.tuple [.int 1, .int 2], .tuple [.int 3, .int 4]]) = true := by rfl
 example : inDomainValues [] (.int 3) = false := by rfl
+/-- an instance of a slots-only class without annotations (`__slots__ = ('a', '_b', 'c')`, whatever the
+    constructor parameters are called): the public slots, in `__slots__` order -/
+example : iteritems envEx (.inst 5 [("a".toList, .int 1), ("_b".toList, .int 2), ("c".toList, .int 3)])
+    = .ok [.ok (.str "a".toList, .int 1), .ok (.str "c".toList, .int 3)] := by rfl
+/-- an instance of a vars-only class: every public instance attribute, in assignment order, none read
+    as a pair although the first one is a 2-tuple -/
+example : itervalues envEx (.inst 6 [("a".toList, .tuple [.int 1, .int 2]), ("_h".toList, .int 2), ("extra".toList, .list [.int 1])])
+    = .ok [.tuple [.int 1, .int 2], .list [.int 1]] := by rfl
+example : inDomainItems envEx (.inst 6 [("a".toList, .tuple [.int 1, .int 2]), ("_h".toList, .int 2)]) = true
+    ∧ givenPairs envEx (.inst 6 [("a".toList, .tuple [.int 1, .int 2]), ("_h".toList, .int 2)]) = false := ⟨rfl, rfl⟩
 /-- a member of an enumeration without `str` mix-in (even one whose value is the 2-character 'ab'):
     in the domain, nothing yielded, and as an element it is not a pair -/
 example : plainMember envEx 3 = true := by rfl
